@@ -383,11 +383,10 @@ Qed.
 
 (* ---- an entry of `subscriptions` has its sender in msg_senders, unless it is just being created or the reader has failed;
    a remove_match between its two steps has taken its entry away; a call in A2 is the only holder of its entry ---- *)
+Definition e1 (s : sys) : Prop :=
+  forall r e, lookup (subs s) r = Some e -> In (KRule r, e_ch e) (senders s) \/ (exists sid, a2 s sid r (e_ch e)) \/ reader s = RStopped.
 Definition ereg (s : sys) : Prop :=
-  (forall r e, lookup (subs s) r = Some e -> In (KRule r, e_ch e) (senders s) \/ (exists sid, a2 s sid r (e_ch e)) \/ reader s = RStopped) /\
-  (forall r c, r1 s r c -> lookup (subs s) r = None) /\
-  (forall sid r c e, a2 s sid r c -> lookup (subs s) r = Some e -> e_ref e = 1) /\
-  (In (KAll, 0) (senders s) \/ reader s = RStopped).
+  e1 s /\ (forall r c, r1 s r c -> lookup (subs s) r = None) /\ (In (KAll, 0) (senders s) \/ reader s = RStopped).
 
 Lemma stopped_stays s l s' : tstep s l s' -> reader s = RStopped -> reader s' = RStopped.
 Proof.
@@ -449,60 +448,148 @@ Proof.
   - left. eapply a2_ext; [|exact Ha]. cbn [adds with_tasks]. apply adds_rm.
 Qed.
 
+Ltac rm_tables :=
+  match goal with Hr : rm_apply _ _ = _ |- _ =>
+    let Hs := fresh "Esnd" in let Hst := fresh "Estr" in let Ha := fresh "Eadd" in let Hd := fresh "Edrp" in
+    let Ht := fresh "Etsk" in let Hl := fresh "Elen" in let Ho := fresh "Eoth" in let Hm := fresh "Erm" in
+    apply rm_apply_spec, rm_spec_tables in Hr; destruct Hr as (Hs & Hst & Ha & Hd & Ht & Hl & Ho & Hm)
+  end.
+
 Lemma r1_new s l s' r c : tstep s l s' -> Inv s -> r1 s' r c -> r1 s r c \/ (subs_busy s = false /\ lookup (subs s') r = None).
 Proof.
-  intros Hs I Hr. destruct (holders_step _ _ _ _ Hs I) as [[_ Hback]|[(Hb & _ & Hno)|(Hb & _)]]; [left; now apply Hback | destruct (Hno _ _ Hr) |].
-  (* the step made a new remove_match wait: it took the entry of its rule away *)
-  assert (Hold : r1 s r c -> False) by (intros Hx; exact (not_busy_r1 s r c Hb Hx)).
-  destruct Hs; try (exfalso; apply Hold; exact Hr).
-  - (* occupied *) left. subst c0 ch1 s1 s2. pose proof (inv_ids _ _ I _ _ H) as Hns. pose proof (live_no_drop _ _ _ I Hns) as Hnd.
-    eapply r1_agree; [| | |exact Hr]; try reflexivity. intros sid' pc Hd. cbn [streams with_adds with_streams with_subs set_chan with_chans].
-    apply lookup_put_other. intros ->. congruence.
-  - left. pose proof (inv_ids _ _ I _ _ H) as Hns. pose proof (live_no_drop _ _ _ I Hns) as Hnd.
-    eapply r1_agree; [| | |exact Hr]; try reflexivity. intros sid' pc Hd. cbn [streams with_adds with_streams with_senders]. apply lookup_put_other. intros ->. congruence.
-  - left. apply fresh_spec in H. destruct H as (Hns & _). pose proof (live_no_drop _ _ _ I Hns) as Hnd.
-    eapply r1_agree; [| | |exact Hr]; try reflexivity. intros sid' pc Hd. cbn [streams with_streams set_chan with_chans]. apply lookup_put_other. intros ->. congruence.
-  - left. destruct H as [Hl Hd0]. eapply r1_agree; [| | |exact Hr]; try reflexivity. intros sid' pc Hd. cbn [streams with_streams set_chan with_chans].
-    apply lookup_put_other. intros ->. congruence.
-  - (* drop *) left. destruct H as [Hl Hd0]. destruct Hr as [(sid' & st' & Hd' & Hs' & Hr')|Hin].
-    + left. cbn [drops streams with_tasks] in Hd', Hs'. rewrite streams_bury in Hs'. apply in_del_lookup in Hs'. exists sid', st'. tauto.
-    + right. cbn [tasks with_tasks] in Hin. change (tasks (bury s sid st)) with (tasks s) in Hin. now apply in_app_r0 in Hin.
-  - left. destruct H as [Hl Hd0]. destruct Hr as [(sid' & st' & Hd' & Hs' & Hr')|Hin]; [left | now right].
-    rewrite streams_bury in Hs'. apply in_del_lookup in Hs'. exists sid', st'. tauto.
-  - left. destruct H as [Hl Hd0]. apply fresh_spec in H0. destruct H0 as (Hns & _). pose proof (live_no_drop _ _ _ I Hns) as Hnd.
-    eapply r1_agree; [| | |exact Hr]; try reflexivity. intros sid' pc Hd. cbn [streams with_cloned with_streams set_chan with_chans]. apply lookup_put_other. intros ->. congruence.
-  - (* async drop starts *) left. destruct H as [Hl Hd0]. destruct Hr as [(sid' & st' & Hd' & Hs' & Hr')|Hin]; [left | now right].
-    cbn [drops streams with_drops] in Hd', Hs'. destruct (Nat.eq_dec sid' sid) as [->|Hne]; [rewrite lookup_put_same in Hd'; discriminate|].
+  intros Hs I.
+  assert (Hput : forall s1 sid st', drops s1 = drops s -> tasks s1 = tasks s -> streams s1 = put (streams s) sid st' ->
+                   lookup (drops s) sid = None -> forall r c, r1 s1 r c -> r1 s r c).
+  { intros s1 sid st' Ed Et Es Hnd r0 c0 Hr. refine (proj1 (r1_agree s s1 r0 c0 Ed Et _) Hr). intros sid' pc Hd. rewrite Es.
+    apply lookup_put_other. intros ->. congruence. }
+  assert (Hdel : forall s1 sid, drops s1 = drops s -> tasks s1 = tasks s -> streams s1 = del (streams s) sid ->
+                   lookup (drops s) sid = None -> forall r c, r1 s1 r c -> r1 s r c).
+  { intros s1 sid Ed Et Es Hnd r0 c0 Hr. refine (proj1 (r1_agree s s1 r0 c0 Ed Et _) Hr). intros sid' pc Hd. rewrite Es.
+    apply lookup_del_other. intros ->. congruence. }
+  destruct Hs; simp; try (intros Hr; left; exact Hr).
+  - (* occupied *) intros Hr. left. revert Hr. eapply (Hput _ sid); try reflexivity. apply (live_no_drop matches); [assumption | eapply inv_ids; eassumption].
+  - (* add sender *) intros Hr. left. revert Hr. eapply (Hput _ sid); try reflexivity. apply (live_no_drop matches); [assumption | eapply inv_ids; eassumption].
+  - (* unfiltered *) intros Hr. left. revert Hr. eapply (Hput _ sid); try reflexivity.
+    unfold fresh in H. apply (live_no_drop matches); [assumption|]. destruct (lookup (streams s) sid); [discriminate | reflexivity].
+  - (* poll *) destruct H as [Hl Hd]. intros Hr. left. revert Hr. eapply (Hput _ sid); try reflexivity; eassumption.
+  - (* drop rule *) destruct H as [Hl Hd]. intros [(sid' & st' & Hd' & Hs' & Hr')|Hr]; left.
+    + left. simp. exists sid', st'. repeat split; try assumption. destruct (Nat.eq_dec sid' sid) as [->|Hne]; [now rewrite lookup_del_same in Hs'|].
+      now rewrite lookup_del_other in Hs'.
+    + right. simp. now apply in_app_r0 in Hr.
+  - destruct H as [Hl Hd]. intros Hr. left. revert Hr. eapply (Hdel _ sid); try reflexivity; eassumption.
+  - (* clone *) destruct H as [Hl Hd]. intros Hr. left. revert Hr. eapply (Hput _ sid2); try reflexivity.
+    unfold fresh in H0. apply (live_no_drop matches); [assumption|]. destruct (lookup (streams s) sid2); [discriminate | reflexivity].
+  - (* async drop starts *) destruct H as [Hl Hd]. intros [(sid' & st' & Hd' & Hs' & Hr')|Hr]; left; [left | now right].
+    simp. destruct (Nat.eq_dec sid' sid) as [->|Hne]; [rewrite lookup_put_same in Hd'; discriminate|].
     rewrite lookup_put_other in Hd' by assumption. exists sid', st'. tauto.
-  - left. destruct H as [Hl Hd0]. destruct Hr as [(sid' & st' & Hd' & Hs' & Hr')|Hin]; [left | now right].
-    rewrite streams_bury in Hs'. apply in_del_lookup in Hs'. exists sid', st'. tauto.
-  - (* async drop, subs, done *) exfalso. apply Hold. pose proof (rm_apply_frame _ _ _ _ H3) as (_ & Estr & _ & Edrp & Etsk & _).
-    destruct Hr as [(sid' & st' & Hd' & Hs' & Hr')|Hin].
-    + left. cbn [drops streams with_drops] in Hd', Hs'. rewrite streams_bury, Estr in Hs'. rewrite Edrp in Hd'. apply in_del_lookup in Hs'. apply in_del_lookup in Hd'. exists sid', st'. tauto.
-    + right. cbn [tasks with_drops] in Hin. change (tasks (bury s1 sid st)) with (tasks s1) in Hin. now rewrite Etsk in Hin.
-  - (* async drop, subs, wait: this is the one *)
-    pose proof (rm_apply_frame _ _ _ _ H3) as (_ & Estr & _ & Edrp & Etsk & _). destruct Hr as [(sid' & st' & Hd' & Hs' & Hr')|Hin].
-    + cbn [drops streams with_drops] in Hd', Hs'. rewrite Estr in Hs'. rewrite Edrp in Hd'. destruct (Nat.eq_dec sid' sid) as [->|Hne].
-      * rewrite H in Hs'. inversion Hs'; subst st'. rewrite H2 in Hr'. inversion Hr'; subst r0. right. split; [assumption|]. cbn [subs with_drops].
-        apply rm_apply_spec, rm_spec_tables in H3. tauto.
+  - destruct H as [Hl Hd]. intros Hr. left. revert Hr. eapply (Hdel _ sid); try reflexivity; eassumption.
+  - (* async drop, subs, done *) rm_tables. intros [(sid' & st' & Hd' & Hs' & Hr')|Hr]; left; simp.
+    + left. rewrite Edrp in Hd'. rewrite Estr in Hs'. destruct (Nat.eq_dec sid' sid) as [->|Hne]; [now rewrite lookup_del_same in Hd'|].
+      rewrite lookup_del_other in Hd' by assumption. rewrite lookup_del_other in Hs' by assumption. exists sid', st'. tauto.
+    + right. now rewrite Etsk in Hr.
+  - (* async drop, subs, wait *) rm_tables. intros [(sid' & st' & Hd' & Hs' & Hr')|Hr]; simp.
+    + rewrite Edrp in Hd'. rewrite Estr in Hs'. destruct (Nat.eq_dec sid' sid) as [->|Hne].
+      * right. split; [assumption|]. rewrite H in Hs'. inversion Hs'; subst st'. rewrite H2 in Hr'. inversion Hr'; subst. apply Erm.
       * rewrite lookup_put_other in Hd' by assumption. exfalso. eapply (not_busy_r1 s r c); [assumption|]. left. exists sid', st'. tauto.
-    + exfalso. cbn [tasks with_drops] in Hin. rewrite Etsk in Hin. eapply (not_busy_r1 s r c); [assumption | now right].
-  - (* async drop, sender *) left. destruct Hr as [(sid' & st' & Hd' & Hs' & Hr')|Hin].
-    + left. cbn [drops streams with_drops] in Hd', Hs'. rewrite streams_bury, streams_rm in Hs'. apply in_del_lookup in Hs'. apply in_del_lookup in Hd'. exists sid', st'. tauto.
-    + right. cbn [tasks with_drops] in Hin. change (tasks (bury (rm_sender s r0) sid st)) with (tasks (rm_sender s r0)) in Hin. now rewrite tasks_rm in Hin.
-  - (* task, subs, done *) exfalso. apply Hold. pose proof (rm_apply_frame _ _ _ _ H1) as (_ & Estr & _ & Edrp & Etsk & _).
-    destruct Hr as [(sid' & st' & Hd' & Hs' & Hr')|Hin].
-    + left. cbn [drops streams with_tasks] in Hd', Hs'. rewrite Estr in Hs'. rewrite Edrp in Hd'. exists sid', st'. tauto.
-    + right. cbn [tasks with_tasks] in Hin. eapply in_del_nth; eassumption.
-  - (* task, subs, wait: this is the one *)
-    pose proof (rm_apply_frame _ _ _ _ H1) as (_ & Estr & _ & Edrp & Etsk & _). destruct Hr as [(sid' & st' & Hd' & Hs' & Hr')|Hin].
-    + exfalso. cbn [drops streams with_tasks] in Hd', Hs'. rewrite Estr in Hs'. rewrite Edrp in Hd'. eapply (not_busy_r1 s r c); [assumption|]. left. exists sid', st'. tauto.
-    + cbn [tasks with_tasks] in Hin. apply in_upd in Hin. destruct Hin as [E|Hin].
-      * inversion E; subst. right. split; [assumption|]. cbn [subs with_tasks]. apply rm_apply_spec, rm_spec_tables in H1. tauto.
+    + exfalso. rewrite Etsk in Hr. eapply (not_busy_r1 s r c); [assumption | now right].
+  - (* async drop, sender *) intros [(sid' & st' & Hd' & Hs' & Hr')|Hr]; left; [left | right; simp; exact Hr]. simp.
+    destruct (Nat.eq_dec sid' sid) as [->|Hne]; [now rewrite lookup_del_same in Hd'|]. rewrite lookup_del_other in Hd' by assumption. rewrite lookup_del_other in Hs' by assumption.
+    exists sid', st'. tauto.
+  - (* task, subs, done *) rm_tables. intros [(sid' & st' & Hd' & Hs' & Hr')|Hr]; left; simp.
+    + left. rewrite Edrp in Hd'. rewrite Estr in Hs'. exists sid', st'. tauto.
+    + right. eapply in_del_nth; eassumption.
+  - (* task, subs, wait *) rm_tables. intros [(sid' & st' & Hd' & Hs' & Hr')|Hr]; simp.
+    + exfalso. rewrite Edrp in Hd'. rewrite Estr in Hs'. eapply (not_busy_r1 s r c); [assumption|]. left. exists sid', st'. tauto.
+    + apply in_upd in Hr. destruct Hr as [E|Hr].
+      * inversion E; subst. right. split; [assumption|]. apply Erm.
       * exfalso. eapply (not_busy_r1 s r c); [assumption | now right].
-  - (* task, sender *) left. destruct Hr as [(sid' & st' & Hd' & Hs' & Hr')|Hin].
-    + left. cbn [drops streams with_tasks] in Hd', Hs'. rewrite streams_rm in Hs'. rewrite drops_rm in Hd'. exists sid', st'. tauto.
-    + right. cbn [tasks with_tasks] in Hin. eapply in_del_nth; eassumption.
+  - (* task, sender *) intros [(sid' & st' & Hd' & Hs' & Hr')|Hr]; left; [left | right]; simp.
+    + exists sid', st'. tauto.
+    + eapply in_del_nth; eassumption.
+Qed.
+
+Lemma e1_keep s s' : subs s' = subs s -> (forall k c, In (k, c) (senders s) -> In (k, c) (senders s')) ->
+  (forall sid r c, a2 s sid r c -> a2 s' sid r c) -> (reader s = RStopped -> reader s' = RStopped) -> e1 s -> e1 s'.
+Proof.
+  intros Es Hsn Ha Hrd E r e He. rewrite Es in He. destruct (E _ _ He) as [H|[[sid H]|H]]; [left; auto | right; left; exists sid; auto | right; right; auto].
+Qed.
+
+Lemma a2_same s s' sid r c : adds s' = adds s -> a2 s sid r c -> a2 s' sid r c.
+Proof. unfold a2. now intros ->. Qed.
+
+Lemma e1_step s l s' : tstep s l s' -> Inv s -> ereg s -> e1 s'.
+Proof.
+  intros Hs I (E1 & E2 & E4).
+  assert (Hrm : forall s1 r0 o, rm_apply s r0 = (s1, o) -> subs_busy s = false ->
+            forall s2, subs s2 = subs s1 -> senders s2 = senders s1 -> adds s2 = adds s1 -> reader s2 = reader s1 -> e1 s2).
+  { intros s1 r0 o Hsp Hb s2 Esb Esn Ead Erd r' e' He'. rewrite Esb in He'.
+    pose proof (rm_apply_frame _ _ _ _ Hsp) as (Esn1 & _ & Ead1 & _ & _ & Erd1 & _). rewrite Esn1 in Esn. rewrite Ead1 in Ead. rewrite Erd1 in Erd.
+    apply rm_apply_spec, rm_spec_tables in Hsp.
+    destruct Hsp as (_ & _ & _ & _ & _ & _ & Eoth & Erm). rewrite Esn, Erd.
+    assert (Hnoa : forall sid, a2 s sid r' (e_ch e') -> exists sid, a2 s2 sid r' (e_ch e')) by (intros sid Ha; exists sid; now apply (a2_same s s2)).
+    destruct (Nat.eq_dec r' r0) as [->|Hne].
+    - destruct o as [c|].
+      + destruct Erm as [Hn _]. congruence.
+      + destruct (lookup (subs s) r0) as [e|] eqn:Eold; [|congruence]. destruct Erm as (e2 & He2 & Hch). rewrite He' in He2. inversion He2; subst e2.
+        rewrite Hch. destruct (E1 _ _ Eold) as [H|[[sid H]|H]]; [now left | exfalso; exact (not_busy_a2 s _ _ _ Hb H) | now right; right].
+    - rewrite (Eoth _ Hne) in He'. destruct (E1 _ _ He') as [H|[[sid H]|H]]; [now left | exfalso; exact (not_busy_a2 s _ _ _ Hb H) | now right; right]. }
+  destruct Hs; simp; try (eapply e1_keep; [| | | |exact E1]; simp; try reflexivity; try (intros; assumption); try (intros; congruence);
+                          try (intros sid0 r0 c0; apply a2_same; reflexivity); fail).
+  - (* the reader fails *) intros r0 e0 He. right; right. reflexivity.
+  - (* add start *) eapply e1_keep; [| | | |exact E1]; simp; try reflexivity; try (intros; assumption).
+    intros sid0 r0 c0 (a' & Ha' & Hr' & Hp'). exists a'. apply fresh_spec in H. destruct H as (_ & Hna & _). simp.
+    rewrite lookup_put_other; [tauto | intros ->; congruence].
+  - eapply e1_keep; [| | | |exact E1]; simp; try reflexivity; try (intros; assumption).
+    intros sid0 r0 c0 (a' & Ha' & Hr' & Hp'). exists a'. simp. rewrite lookup_del_other; [tauto | intros ->; congruence].
+  - eapply e1_keep; [| | | |exact E1]; simp; try reflexivity; try (intros; assumption).
+    intros sid0 r0 c0 (a' & Ha' & Hr' & Hp'). exists a'. simp. rewrite lookup_put_other; [tauto | intros ->; congruence].
+  - (* occupied *) intros r' e' He'. simp. destruct (Nat.eq_dec r' (a_rule a)) as [->|Hne].
+    + rewrite lookup_put_same in He'. inversion He'; subst e'. cbn [e_ch].
+      destruct (E1 _ _ H2) as [Hx|[[sid' Hx]|Hx]]; [now left | exfalso; exact (not_busy_a2 s _ _ _ H1 Hx) | now right; right].
+    + rewrite lookup_put_other in He' by assumption.
+      destruct (E1 _ _ He') as [Hx|[[sid' Hx]|Hx]]; [now left | exfalso; exact (not_busy_a2 s _ _ _ H1 Hx) | now right; right].
+  - (* vacant *) intros r' e' He'. simp. destruct (Nat.eq_dec r' (a_rule a)) as [->|Hne].
+    + rewrite lookup_put_same in He'. inversion He'; subst e'. cbn [e_ch]. right; left. exists sid, (add_at a (A2 (length (chans s)))). simp.
+      rewrite lookup_put_same. repeat split; reflexivity.
+    + rewrite lookup_put_other in He' by assumption.
+      destruct (E1 _ _ He') as [Hx|[[sid' Hx]|Hx]]; [now left | exfalso; exact (not_busy_a2 s _ _ _ H1 Hx) | now right; right].
+  - (* add sender *) intros r' e' He'. simp. destruct (E1 _ _ He') as [Hx|[[sid' Hx]|Hx]]; [left; apply in_app_iff; now left | | now right; right].
+    left. apply in_app_iff. right. left.
+    assert (Hme : a2 s sid (a_rule a) c) by (exists a; tauto).
+    pose proof (inv_a2_uniq _ _ I _ _ _ _ _ _ Hx Hme) as ->. destruct Hx as (a' & Ha' & Hr' & Hp'). rewrite H in Ha'. inversion Ha'; subst a'.
+    rewrite H0 in Hp'. inversion Hp'; subst. reflexivity.
+  - (* async drop, subs, done *) eapply (Hrm _ _ _ H3 H1); simp; reflexivity.
+  - eapply (Hrm _ _ _ H3 H1); simp; reflexivity.
+  - (* async drop, sender *) intros r' e' He'. simp. assert (Hr1 : r1 s r c) by (left; exists sid, st; tauto).
+    destruct (Nat.eq_dec r' r) as [->|Hne]; [rewrite (E2 _ _ Hr1) in He'; discriminate|].
+    destruct (E1 _ _ He') as [Hx|[[sid' Hx]|Hx]]; [left | exfalso; eapply inv_excl; eassumption | now right; right].
+    apply in_del_key. split; [assumption | cbn; congruence].
+  - eapply (Hrm _ _ _ H1 H0); simp; reflexivity.
+  - eapply (Hrm _ _ _ H1 H0); simp; reflexivity.
+  - (* task, sender *) intros r' e' He'. simp. assert (Hr1 : r1 s r c) by (right; eapply nth_error_In; eassumption).
+    destruct (Nat.eq_dec r' r) as [->|Hne]; [rewrite (E2 _ _ Hr1) in He'; discriminate|].
+    destruct (E1 _ _ He') as [Hx|[[sid' Hx]|Hx]]; [left | exfalso; eapply inv_excl; eassumption | now right; right].
+    apply in_del_key. split; [assumption | cbn; congruence].
+Qed.
+
+Lemma ereg_step s l s' : tstep s l s' -> Inv s -> ereg s -> ereg s'.
+Proof.
+  intros Hs I E. split; [eapply e1_step; eassumption|]. destruct E as (E1 & E2 & E4). split; [|eapply kall_step; eassumption].
+  intros r c Hr. destruct (r1_new _ _ _ _ _ Hs I Hr) as [Hold|[_ Hn]]; [|exact Hn].
+  rewrite (busy_subs_same _ _ _ Hs (busy_of_r1 _ _ _ Hold)). exact (E2 _ _ Hold).
+Qed.
+
+Lemma ereg_init : ereg init.
+Proof.
+  split; [|split].
+  - intros r e He. discriminate.
+  - intros r c [(sid & st & Hd & _)|[]]. discriminate.
+  - left. cbn. tauto.
+Qed.
+
+Lemma ereg_reach tr s : reach tr s -> ereg s.
+Proof.
+  induction 1 as [|tr s l s' Hr IH Hs]; [exact ereg_init|]. eapply ereg_step; [apply step_tstep; eassumption | eapply Inv_reach; eassumption | assumption].
 Qed.
 
 (* ---- the invariant along every history without clone ---- *)
@@ -516,6 +603,30 @@ Proof.
     assert (Hl : forall a b, l <> LClone a b) by (intros a b ->; apply (Hnc a b), in_app_iff; right; now left).
     destruct (IH Hnc') as [C G]. pose proof (Inv_reach _ _ _ Hr) as I. pose proof (keys_reach _ _ Hr) as K. apply step_tstep in Hs.
     pose proof (keys_step _ _ _ Hs K) as K'. split; [eapply count_step; eassumption | eapply agree_step; eassumption].
+Qed.
+
+(* ---- a stream that has not been cloned and is not in the second half of its asynchronous drop is registered in
+   msg_senders under its own key, unless the reader has failed ---- *)
+Theorem registered_live tr s sid st : reach tr s -> no_clone tr -> lookup (streams s) sid = Some st -> in_r1 s sid = false ->
+  In (skey st, s_ch st) (senders s) \/ reader s = RStopped.
+Proof.
+  intros Hr Hnc Hl Hnr. destruct (share_reach _ _ Hr Hnc) as [C G]. pose proof (Inv_reach _ _ _ Hr) as I. destruct (ereg_reach _ _ Hr) as (E1 & E2 & E4).
+  unfold skey. destruct (s_rule st) as [r|] eqn:Er.
+  - specialize (C r). destruct (lookup (subs s) r) as [e|] eqn:Ee.
+    + rewrite (G _ _ _ _ Hl Er Hnr Ee). destruct (E1 _ _ Ee) as [H|[[sid' H]|H]]; [now left | | now right].
+      exfalso. destruct (inv_a2 _ _ I _ _ _ H) as (_ & _ & _ & _ & _ & _ & Hno). apply (Hno _ _ Hl). exact (G _ _ _ _ Hl Er Hnr Ee).
+    + exfalso. unfold holders in C. assert (1 <= cnt (holds_stream s r) (streams s)); [|lia].
+      apply (cnt_pos _ _ (sid, st)); [now apply lookup_in|]. rewrite holds_stream_val, Hnr. unfold rule_is. rewrite Er, Nat.eqb_refl. reflexivity.
+  - destruct (inv_stream _ _ I _ _ Hl) as (_ & _ & H0). rewrite (H0 Er). exact E4.
+Qed.
+
+(* C20_delivery for histories without a cloned stream: no registration hypothesis *)
+Theorem delivery_no_clone tr s sid st : reach tr s -> no_clone tr -> lookup (streams s) sid = Some st -> in_r1 s sid = false ->
+  reader s <> RStopped ->
+  msgs (s_got st) ++ msgs (unread (chan_at s (s_ch st)) sid) =
+  filter (Inv.accepts matches (skey st)) (skipn (s_from st) (firstn (seen s (s_ch st)) (incoming s))).
+Proof.
+  intros Hr Hnc Hl Hnr Hrd. destruct (registered_live _ _ _ _ Hr Hnc Hl Hnr) as [H|H]; [|contradiction]. eapply delivery; eassumption.
 Qed.
 
 End Share.
